@@ -1,0 +1,70 @@
+//go:build verif
+
+// Contracts for package searcher: the nested conjunction searcher's buffer of aligned matches
+// (read by /verif/gocv; comment-only effect with the verif tag off).
+//
+// C20 ("each parent at most once") / C08 ("Advance lands on the first match at or after the
+// target"): NestedConjunctionSearcher.Next buffers the matches of all children that share one
+// ancestor in a CoalesceQueue, sorted; Dequeue pops the least id and merges every further entry of
+// the same id into it, so one id leaves the queue once; Advance first serves the target from that
+// buffer and may discard only buffered matches that lie before the target.
+//
+// Under contract here: CoalesceQueue.Dequeue (complete), NestedConjunctionSearcher.Advance up to
+// its ancestor lookup (the buffered part). NOT under contract: Next's alignment loop, initialize,
+// the rest of Advance (ancestor chains of the index reader).
+
+package searcher
+
+// what the merge of two matches of one id does to explanations and locations is not looked at
+//@ assume func search.Explanation.MergeWith(expl, other)
+//@   modifies fields(search.Explanation), mem(*search.Explanation)
+//@ assume func search.MergeFieldTermLocationsFromMatch(dest, match)
+//@   modifies mem(search.FieldTermLocation)
+
+// the index reader's ancestor chain of a document (nothing assumed of the result here)
+//@ assume func index.NestedReader.Ancestors(r, id, prealloc)
+//@   requires r != nil
+//@   modifies prealloc[*]
+
+// queue content: non-nil, pairwise distinct match objects, stored apart from the pool's own slots
+//@ spec cqShape(ctx *search.SearchContext, cq *CoalesceQueue) bool = cq != nil && ctx != nil && ctx.DocumentMatchPool != nil && (cap(cq.order) == 0 || base(ctx.DocumentMatchPool.avail) != base(cq.order)) && forall(k, 0, len(cq.order), cq.order[k] != nil) && forall(j, 0, len(cq.order), forall(k, 0, len(cq.order), implies(j != k, cq.order[j] != cq.order[k])))
+// after Finalize: descending from the front, so popping from the end yields ascending ids
+//@ spec cqSorted(cq *CoalesceQueue) bool = forall(j, 0, len(cq.order), forall(k, 0, len(cq.order), implies(j < k, dmKey(cq.order[j]) >= dmKey(cq.order[k]))))
+
+//@ func CoalesceQueue.Dequeue
+//@   props C20 C08
+//@   mode int
+//@   requires cqShape(ctx, cq)
+//@   modifies cq.order, fields(search.DocumentMatch), search.DocumentMatchPool.avail, mem(*search.DocumentMatch), fields(search.Explanation), mem(*search.Explanation), mem(search.FieldTermLocation)
+//@   ensures implies(old(len(cq.order)) == 0, result == nil && len(cq.order) == 0)
+// the entry at the end is handed out under its own id; what stays is an unchanged prefix
+//@   ensures implies(old(len(cq.order)) > 0, result != nil && result == old(cq.order[len(cq.order)-1]) && dmKey(result) == old(dmKey(cq.order[len(cq.order)-1])) && len(cq.order) < old(len(cq.order)))
+//@   ensures cqShape(ctx, cq) && forall(k, 0, len(cq.order), cq.order[k] == old(cq.order[k]) && dmKey(cq.order[k]) == old(dmKey(cq.order[k])) && cq.order[k] != result)
+// each id once: the entry now at the end carries another id (after Finalize: a larger one)
+//@   ensures implies(result != nil && len(cq.order) > 0, dmKey(cq.order[len(cq.order)-1]) != dmKey(result))
+//@   ensures implies(old(cqSorted(cq)), cqSorted(cq) && implies(result != nil, forall(k, 0, len(cq.order), dmKey(cq.order[k]) > dmKey(result))))
+//@   loop 0: invariant rv != nil && rv == old(cq.order[len(cq.order)-1]) && dmKey(rv) == old(dmKey(cq.order[len(cq.order)-1])) && cqShape(ctx, cq) && len(cq.order) < old(len(cq.order)) && base(cq.order) == old(base(cq.order))
+//@   loop 0: invariant forall(k, 0, len(cq.order), cq.order[k] == old(cq.order[k]) && dmKey(cq.order[k]) == old(dmKey(cq.order[k])) && cq.order[k] != rv)
+//@   loop 0: invariant implies(old(cqSorted(cq)), forall(k, 0, len(cq.order), dmKey(cq.order[k]) >= dmKey(rv)))
+
+// first positioning of the children (Next on each child, ancestor chains from the index reader)
+//@ func NestedConjunctionSearcher.initialize
+//@   props C20 C08
+//@   mode int
+//@   trusted the first positioning of the children over the index reader's ancestor chains is not under contract; assumed of it: it leaves the buffer alone and keeps the pool's slot array or replaces it by a new one
+//@   requires s != nil && ctx != nil && ctx.DocumentMatchPool != nil
+//@   modifies s.currs[*], s.currAncestors[*], s.currKeys[*], s.joinIdx, s.initialized, search.Searcher.started, search.Searcher.last, search.Searcher.done, search.DocumentMatchPool.avail, mem(index.AncestorID)
+//@   ensures implies(result1 == nil && !result0, s.initialized) && (base(ctx.DocumentMatchPool.avail) == old(base(ctx.DocumentMatchPool.avail)) || fresh(ctx.DocumentMatchPool.avail))
+
+// Advance, buffered part: a buffered match is discarded only if it lies before the target; the
+// match returned from the buffer is at or after the target and (the buffer being sorted) every
+// match still buffered lies after it.
+//@ func NestedConjunctionSearcher.Advance
+//@   props C20 C08
+//@   mode int
+//@   requires s != nil && s.nestedReader != nil && cqShape(ctx, s.docQueue) && cqSorted(s.docQueue) && implies(!s.initialized, len(s.docQueue.order) == 0)
+//@   modifies fields(NestedConjunctionSearcher), fields(CoalesceQueue), fields(search.DocumentMatch), search.DocumentMatchPool.avail, mem(*search.DocumentMatch), fields(search.Explanation), mem(*search.Explanation), mem(search.FieldTermLocation), mem(index.AncestorID), s.currs[*], s.currAncestors[*], s.currKeys[*], search.Searcher.started, search.Searcher.last, search.Searcher.done
+//@   at call ctx.DocumentMatchPool.Put#0: assert dmKey(dm) < idKey(ID)
+//@   cutafter call s.nestedReader.Ancestors#0
+//@   ensures implies(result1 == nil && result0 != nil, dmKey(result0) >= idKey(ID) && cqShape(ctx, s.docQueue) && cqSorted(s.docQueue) && forall(k, 0, len(s.docQueue.order), dmKey(s.docQueue.order[k]) > dmKey(result0)))
+//@   loop 0: invariant s.docQueue == old(s.docQueue) && s.nestedReader != nil && cqShape(ctx, s.docQueue) && cqSorted(s.docQueue)
